@@ -225,9 +225,8 @@ def lake_build(targets, timeout=3600):
         t0 = time.time()
         p = sh(["lake", "build", *targets], cwd=LEAN, timeout=timeout)
         out = p.stdout + p.stderr
-        if p.returncode != 0 and re.search(r"AsmjitVerif[./]Gen[./]\w+", out) and ("no such file" in out or "does not exist" in out
-                                                                                    or "unknown module" in out or "bad import" in out):
-            # a git-ignored Gen/ file of some other property is missing (fresh worktree): regenerate all of them once
+        if p.returncode != 0 and re.search(r"error: \S*AsmjitVerif/Gen/\w+\.lean|AsmjitVerif[./]Gen[./]\w+\S* (does not exist|not found)|unknown module prefix 'AsmjitVerif.Gen|bad import 'AsmjitVerif.Gen", out):
+            # a git-ignored Gen/ file of some property is missing or stale (its generator changed in a merge): regenerate all once
             regen_all_gen()
             p = sh(["lake", "build", *targets], cwd=LEAN, timeout=timeout)
             out = p.stdout + p.stderr
